@@ -26,6 +26,7 @@ type replayCase struct {
 	DC   *dconc.DCase           `json:"dcase,omitempty"`
 	KC   *keyCase               `json:"keycase,omitempty"`
 	SR   *dconc.StoreRaceParams `json:"storerace,omitempty"`
+	AS   *apiStampCase          `json:"apistamp,omitempty"`
 }
 
 func coqLabels(ls model.LabelSet) string {
@@ -219,7 +220,17 @@ func TestCheck(t *testing.T) {
 		}
 	}
 
-	if len(dcs) > 0 || env.Replay == "" || srp.Rounds > 0 {
+	// API-stamp part (apistamp_test.go): sub-millisecond resolve / re-fire through the real POST handler across a flush
+	var asReplay *apiStampCase
+	if env.Replay != "" {
+		var rc replayCase
+		if err := vh.LoadReplayCase(env.Replay, &rc); err == nil {
+			asReplay = rc.AS
+		}
+	}
+	apiStampPart(t, env, runC, asReplay)
+
+	if len(dcs) > 0 || env.Replay == "" || srp.Rounds > 0 || asReplay != nil {
 		if err := runC.Finish("hook-driven schedules (2 workers x 2-3 alerts x maintenance sweep x flush) of the group-map machine on the real dispatcher"); err != nil {
 			t.Fatal(err)
 		}
